@@ -149,7 +149,15 @@ def check(ctx):
     sa = self_attr_assignments(fi.node)
     dm = [norm(v) for _, v in sa.get("dt_max", []) if v is not None]
     td = [norm(v) for _, v in sa.get("tentative_dt", []) if v is not None]
-    ok = dm == ["options.dt_max if options.adaptive else options.dt_init"] and td == ["options.dt_init"]
+    # the cap: one conditional expression, or one assignment in each arm of `if options.adaptive`
+    from ..dataflow import conditions_at, expanded_text
+    pmi = parent_map(fi.node)
+    arms = sorted((expanded_text(fi.node, v), tuple(norm(c) for c in conditions_at(fi.node, s_, pmi))) for s_, v in sa.get("dt_max", []) if v is not None)
+    adaptive_txt = ("options.adaptive", "self.options.adaptive")
+    two_arms = len(arms) == 2 and {a[0].replace("self.", "") for a in arms} == {"options.dt_max", "options.dt_init"} and all(
+        (a[0].endswith("dt_max") and a[1] and a[1][-1] in adaptive_txt) or
+        (a[0].endswith("dt_init") and a[1] and a[1][-1] in tuple("not " + t for t in adaptive_txt)) for a in arms)
+    ok = (dm == ["options.dt_max if options.adaptive else options.dt_init"] or two_arms) and td == ["options.dt_init"]
     ctx.ob("R12.2", "dt_max = options.dt_max if adaptive else options.dt_init; tentative_dt starts at dt_init", ok,
            detail={"dt_max": dm, "tentative_dt": td}, where=fi.fq, construct="self.dt_max / self.tentative_dt",
            message=f"dt_max = {dm}, tentative_dt = {td}", consequence="the first step or the cap differs from the documented values")
